@@ -1,3 +1,4 @@
+pub mod refarith;
 pub mod refcal;
 pub mod reftz;
 pub mod wide;
